@@ -20,7 +20,7 @@ import (
 //
 // Explored on the real stdlib.context (sources instrumented by cmd/instr through a build
 // overlay): every schedule of 2-3 goroutines, each performing 1-2 of
-// R(unCode) M(oduleInit) C(=ResolveAndCompile) X(=Close) W(ait for Done), within a
+// R(unCode) M(oduleInit with a Python body) N(=ModuleInit of a Go-only module) C(=ResolveAndCompile) X(=Close) W(ait for Done), within a
 // preemption bound, checked by a monitor over the event trace.
 
 type c09mon struct {
@@ -235,6 +235,25 @@ func c09Body(cfg [][]byte) func(x *explore.Exec) string {
 						if err == nil {
 							mon.modulesOK[name] = true
 						}
+						if issuedAfterClose {
+							if _, gerr := ctx.GetModule(name); gerr == nil {
+								mon.fail("module-registered-after-close", "module %s was registered in the store by a request issued after Close had returned", name)
+							}
+						}
+					case 'N':
+						// a Go-only module: no Python body, so no nested execution request
+						name := fmt.Sprintf("n%d_%d", ti, oi)
+						impl := &py.ModuleImpl{Info: py.ModuleInfo{Name: name}, Globals: py.StringDict{},
+							OnContextClosed: func(*py.Module) { mon.callback(name) }}
+						_, err = ctx.ModuleInit(impl)
+						if err == nil {
+							mon.modulesOK[name] = true
+						}
+						if issuedAfterClose {
+							if _, gerr := ctx.GetModule(name); gerr == nil {
+								mon.fail("module-registered-after-close", "module %s was registered in the store by a request issued after Close had returned", name)
+							}
+						}
 					case 'C':
 						_, err = ctx.ResolveAndCompile(filepath.Base(c09File), py.CompileOpts{CurDir: filepath.Dir(c09File)})
 					case 'X':
@@ -266,7 +285,7 @@ func c09Body(cfg [][]byte) func(x *explore.Exec) string {
 						cls = "err:" + t
 					}
 					x.Event("ret t%d %c %s", ti, op, cls)
-					if issuedAfterClose && (op == 'R' || op == 'M' || op == 'C') && err == nil {
+					if issuedAfterClose && (op == 'R' || op == 'M' || op == 'C' || op == 'N') && err == nil {
 						mon.fail("request-after-close-succeeded", "a %c request issued after Close had returned succeeded", op)
 					}
 					if op == 'X' && err != nil {
@@ -413,7 +432,7 @@ func cfgString(c [][]byte) string {
 func c09Run(rc *core.RunCtx) {
 	c09Setup()
 	_ = stdlib.VerifState
-	ops := "RXMCW"
+	ops := "RXMNCW"
 	type plan struct {
 		threads, maxLen, maxOps int
 		bounds                  []int
